@@ -88,6 +88,18 @@ NEEDS = {
  "C17-g1": ("Display negates the scale in i64 before widening", "non-zero decimal with scale exactly i64::MIN (outside the quantified scale range; string form must still round-trip)"),
  "C17-g2": ("f32 subnormal mask one bit short", "f32 tokens in the upper half of the subnormal range"),
  "C17-g3": ("From<u128> routed through `as i128`", "u128 tokens >= 2^127"),
+ "C04-h1": ("exponential fast path combines the two write results with .or() instead of .and()", "{:e}/{:E}/Display-E into a writer where the mantissa fits and the exponent does not: Ok with the exponent missing; String output byte-identical"),
+ "C04-h2": ("plain notation streams the zero run and returns Ok when a block write fails", "write_plain_string of a negative-scale value into a writer that runs out of room during the zero padding"),
+ "C04-h3": ("engineering notation through a latching adapter whose error flag is assigned, not latched", "a piece other than the last fails and the last succeeds (fixed-capacity buffer / fail-once writer)"),
+ "C12-h1": ("initial-guess guard on the exp2 argument instead of its result", "platform flushing subnormal exp2 results to zero, 1023..1074-bit magnitude: result 0"),
+ "C12-h2": ("exact fast path for powers of two taken from exp2", "platform whose exp2 of an integer is one ULP off: 1/2 at p=1 Down gives 0.4"),
+ "C12-h3": ("step budget derived from the assumed guess quality", "platform returning 2^-1074 for exp2(-1075) (an exact tie, one ULP from 0): the clean loop needs ~1080 steps, the budget stops at 13"),
+ "C14-h1": ("fast path dividing by powi(10, scale) for short decimals", "platform whose powi(10,k) is 1 ULP off for small k: float round trip breaks (0.375 -> 0.37499999999999994)"),
+ "C14-h2": ("scaling in steps of powi(10,22)", "platform whose powi is 2+ ULP off and a large positive exponent: the error enters up to 14 times"),
+ "C14-h3": ("trimming divisor taken from powi(10,19) as u64", "platform whose powi(10,19) is 1 ULP off: every float with more than 44 digits fails the round trip"),
+ "C17-h1": ("dotless-exponent Display fast path forgets a failed write when another piece succeeds", "value shown as <digits>e+N and a streaming serializer whose writer fails at one particular write (here: a transient ENOSPC under serde_json::to_writer)"),
+ "C17-h2": ("visit_u128 through `as i128`", "a peer calling visit_u128 with a value >= 2^127"),
+ "C17-h3": ("json_num_option serializes None with serialize_unit", "a peer format that distinguishes unit from none (JSON prints null for both)"),
 }
 def sh(cmd, **kw):
     return subprocess.run(cmd, shell=True, capture_output=True, text=True, **kw)
@@ -124,7 +136,7 @@ for name in sorted(os.listdir(os.path.join(HERE, "seeded"))):
     print(name, verdict, rule, "run", run, f"{dt:.0f}s", flush=True)
 if not only:
     with open(os.path.join(HERE, "SENSITIVITY.md"), "w") as f:
-        f.write("# Sensitivity: seeded changes vs. checks\n\nEach change compiles, passes the 861-test suite, and breaks its property (demonstration in `seeded/<id>/demo.rs`, confirmation in `confirmation.txt`). Written by twenty-eight sub-agents in four rounds that saw only the property text (rounds 2-3: asked for subtle changes that random testing would most likely miss; round 4: changes confined to shared helper code outside the property's own files). Regenerate with `tools/run_seeded.py` (applies each patch to /repo, runs the quick check, reverts).\n\n| seeded change | property | quick check | rule that fired | first failing run | what it needs |\n|---|---|---|---|---|---|\n")
+        f.write("# Sensitivity: seeded changes vs. checks\n\nEach change compiles, passes the 861-test suite, and breaks its property (demonstration in `seeded/<id>/demo.rs`, confirmation in `confirmation.txt`). Written by thirty-two sub-agents in five rounds that saw only the property text (rounds 2-3: asked for subtle changes that random testing would most likely miss; round 4: changes confined to shared helper code outside the property's own files; round 5: changes that manifest only through the environment - a failing caller-supplied writer, a platform-dependent exp2 / powi result, a serde peer). Regenerate with `tools/run_seeded.py` (applies each patch to /repo, runs the quick check, reverts).\n\n| seeded change | property | quick check | rule that fired | first failing run | what it needs |\n|---|---|---|---|---|---|\n")
         for (name, prop, verdict, rule, run) in rows:
             f.write(f"| {name} | {prop} | {verdict} | {rule} | {run} | {NEEDS.get(name, ('',''))[1]} |\n")
         caught = sum(1 for r in rows if r[2] == "CAUGHT")
